@@ -47,6 +47,11 @@ def url_part(name, url):
     return getattr(urlparse(url), name)
 
 
+def parse_date(s):
+    import iso8601
+    return iso8601.parse_date(s)
+
+
 def jv_dict(v):
     return v
 
@@ -74,4 +79,4 @@ def allocated(x):
     return True
 
 
-__all__ = ["jv_dict", "same_value", "url_part", "re_search", "dict_without", "jv_list", "EPOCH", "ms_aligned", "floor_to_ms", "instants", "fresh", "allocated"]
+__all__ = ["parse_date", "jv_dict", "same_value", "url_part", "re_search", "dict_without", "jv_list", "EPOCH", "ms_aligned", "floor_to_ms", "instants", "fresh", "allocated"]
